@@ -379,3 +379,8 @@ impl<D: DataMut> ZnxZero for MatZnx<D> {
         self.at_mut(i, j).zero();
     }
 }
+
+#[cfg(kani)]
+mod verif_kani {
+    include!(concat!(env!("POULPY_VERIF_KX"), "/hal/mat_znx.rs"));
+}
